@@ -238,6 +238,9 @@ class ExprMixin(object):
                 vty = vs[0].ty
                 if any(v.ty != vty for v in vs):
                     vty = PY
+                hints = getattr(self.contract, "empties", None) if self.contract else None
+                if hints and "dictval" in hints:
+                    vty = hints["dictval"]          # dict displays of this function hold values of that type
                 m = core.mempty(ks[0].ty, vty)
                 for k, v in zip(ks, vs):
                     m = core.mstore(m, k, self.store_form(st2, self.adapt(v, vty), vty))
@@ -620,6 +623,13 @@ class ExprMixin(object):
     def do_slice(self, c, sl, st, node):
         if sl.step is not None:
             raise OutsideSubset("slice step")
+        if isinstance(c.ty, Opt):
+            if self.in_spec:
+                return self.do_slice(core.oval(c), sl, st, node)
+            a, b = self.fork(st, core.ois_none(c), getattr(node, "lineno", None), "none-slice")
+            if a is not None:
+                self.do_raise(a, "TypeError")
+            return self.do_slice(core.oval(c), sl, b, node) if b is not None else []
         if c.ty is STATIC:
             c = self.adapt(c, List(c.items[0].ty))
         res = []
@@ -806,6 +816,14 @@ class ExprMixin(object):
                             st.assume(*facts)
                             return (st, r)
         n_pc = len(st.pc)
+        if kind == "list" and getattr(seq, "tag", None) == "arbitrary-order" and self.contract is not None \
+                and getattr(self.contract, "order_insensitive", False) and not st.dry and not self.in_spec:
+            # an ordered result built from an unordered source depends on the iteration order (hence on the hash seed)
+            # unless at most one element passes the filter
+            goal = core.forall_int(0, n, lambda a: core.forall_int(0, n, lambda b: z3.Implies(a < b, z3.Not(z3.And(at(a)[0], at(b)[0])))))
+            self.oblige(st, "deterministic", "L%s" % getattr(e, "lineno", "?"),
+                        "the list built at line %s from a set/dict iteration does not depend on the iteration order "
+                        "(at most one element passes, or the source is ordered)" % getattr(e, "lineno", "?"), goal, getattr(e, "lineno", None))
         out = self._comp_build(e, g, seq, st, kind, at, proto, n)
         if key is not None:
             memo.setdefault(key, []).append((terms, out[1], list(out[0].pc[n_pc:])))
